@@ -356,7 +356,7 @@ Interval<To_Boundary, To_Info>::intersect_assign(const From1& x,
              UPPER, f_upper(y), f_info(y));
   assign_or_swap(info(), to_info);
   PPL_ASSERT(OK());
-  return I_NOT_EMPTY;
+  return I_ANY;
 }
 
 template <typename To_Boundary, typename To_Info>
